@@ -54,6 +54,13 @@ func genC12(t *rapid.T) C12Case {
 	c := C12Case{App: a}
 	n := 1 + uniformN(t, 3, "nsessions")
 	ids := []string{"alice", "bob", "s3"}
+	if n > 1 && chancePct(t, 40, "siblingid") {
+		// an id that looks like a scratch name derived from another session's id
+		ids[1] = ids[0] + []string{".tmp", "~", ".bak", ".new", ".lock", ".swp", "-tmp", ".1", ".old", ".part"}[uniformN(t, 10, "suffix")]
+		if chancePct(t, 25, "siblingprefix") {
+			ids[1] = []string{".tmp-", "tmp", "#", ".#", "_"}[uniformN(t, 5, "prefix")] + ids[0]
+		}
+	}
 	c.Sessions = ids[:n]
 	for i := 0; i < n; i++ {
 		h := GenHistory(t, a, HistOpts{MaxLen: 5, Junk: true})
@@ -138,7 +145,7 @@ func checkC12(c C12Case) (o Outcome) {
 	recordPath := func(s int) string { return filepath.Join(dir, "@"+c.Sessions[s]) }
 	shared := app.NewShared(c.App)
 	// continuation of session s with input in from a directory holding exactly files
-	continueFrom := func(files map[string][]byte, s int, in string) string {
+	continueFrom := func(files map[string][]byte, s int, ins []string) string {
 		root := workDir()
 		defer os.RemoveAll(root)
 		for p, b := range files {
@@ -149,8 +156,14 @@ func checkC12(c C12Case) (o Outcome) {
 		}
 		sess := app.NewSession(shared, app.Mode{Kind: "persist", Backend: "fs"}, app.NewFsStorage(root, false))
 		sess.Cfg.SessionId = c.Sessions[s]
-		step := sess.Request([]byte(in))
-		return step.Visible() + " panic=" + step.Panic + " path=" + fmt.Sprint(step.After != nil && len(step.After.Path) > 0)
+		var sb strings.Builder
+		// two more requests: the first loads the record the crash left and saves again (next
+		// to whatever else the crash left in the directory), the second runs from that save
+		for _, x := range ins {
+			step := sess.Request([]byte(x))
+			sb.WriteString(step.Visible() + " panic=" + step.Panic + " path=" + fmt.Sprint(step.After != nil && len(step.After.Path) > 0) + " | ")
+		}
+		return sb.String()
 	}
 	i := 0
 	for i < len(ops) {
@@ -194,12 +207,14 @@ func checkC12(c C12Case) (o Outcome) {
 		}
 		final := valid[len(valid)-1:]
 		differs := startExists && len(final) > 0 && !bytes.Equal(final[0], startContent)
-		nextInput := ""
-		for kk := k + 1; kk < len(c.Requests); kk++ {
+		var nextInput []string
+		for kk := k + 1; kk < len(c.Requests) && len(nextInput) < 2; kk++ {
 			if c.Requests[kk].Session == s {
-				nextInput = string(c.Requests[kk].Input)
-				break
+				nextInput = append(nextInput, string(c.Requests[kk].Input))
 			}
+		}
+		for len(nextInput) < 2 {
+			nextInput = append(nextInput, "")
 		}
 		expectCont := map[string]string{}
 		checkState := func(state *crashfs.FS, where string, doCont bool) *Violation {
